@@ -34,6 +34,8 @@ in-flight messages delivered, round robin):
   * for every option A.us == B.him and A.him == B.us                          -> `sides-disagree-at-quiescence`
   * no `negotiating` flag left set (read through the public getOptionState())  -> `negotiating-left-set`
   * no exception escaped dataReceived / a request call                        -> `exception-in-*`
+  * every negotiation message written is exactly IAC <WILL|WONT|DO|DONT> <option>, option byte verbatim
+    (option codes include 0xff and command-valued bytes 0xf0/0xfa/0xfb)        -> `negotiation-message-not-iac-cmd-option`
 Exhaustive part: full state-graph search (state = both sides' (us,him)x(state,negotiating) per
 option + both queues + requests left + policy memory + outstanding request ids), children made by
 cloning the world (fresh Telnet object + generic deep copy of its instance state; every 50th state is
@@ -67,7 +69,8 @@ ASSUMPTIONS = ["trusted base: cloning (fresh Telnet + deep copy of its instance 
 SHARDS = {"quick": 4, "thorough": 16}
 FLOORS = {"quiescence_checks": 1000, "deferreds_fired_ok": 1000, "agreement_checks": 1000,
           "messages_delivered": 1000, "results_True": 50, "results_OptionRefused": 50,
-          "requests_from_policy_callbacks": 50, "requests_from_policy_callbacks_explored": 3}
+          "requests_from_policy_callbacks": 50, "requests_from_policy_callbacks_explored": 3,
+          "jobs_with_option_0xff": 2, "jobs_with_command_valued_options": 2, "random_runs_with_option_0xff": 20, "wire_messages_checked": 1000}
 READY = True
 
 KNOWN_DISABLE = "telnet-request-from-disable-callback-precedes-acknowledgement"
@@ -84,6 +87,7 @@ class Wire:
     def __init__(self):
         self.q = []
         self.total = 0
+        self.checked = 0
 
     def write(self, data):
         self.q.append(data)
@@ -205,7 +209,7 @@ class Side:
         n.followup_errors = list(self.followup_errors)
         n.options = self.options
         n.wire = Wire()
-        n.wire.q, n.wire.total = list(self.wire.q), self.wire.total
+        n.wire.q, n.wire.total, n.wire.checked = list(self.wire.q), self.wire.total, self.wire.checked
         memo[id(self.wire)] = n.wire
         n.t = PolicyTelnet()
         memo[id(self.t)] = n.t
@@ -279,6 +283,7 @@ class World:
         dst.fired_now.clear()
         self.delivered += 1
         self._guard("dataReceived", dst.t.dataReceived, data)
+        self.check_wire()
 
     def apply(self, act):
         if act[0] == "deliver":
@@ -292,6 +297,7 @@ class World:
                 self.fleft -= 1
             side.fired_now.clear()
             self._guard("request", side.request, v, bytes([o]), follow)
+        self.check_wire()
         for side in self.sides():
             if side.followup_errors:
                 self.problems.append(("exception-in-followup-request", "a request issued from a request Deferred's callback raised",
@@ -300,6 +306,21 @@ class World:
             for rid, res in side.results.items():
                 if len(res) > 1:
                     self.problems.append(("request-deferred-fired-twice", "a request Deferred fired more than once", {rid: res}))
+
+    def check_wire(self):
+        """Wire-level oracle: every negotiation message a side writes is exactly IAC <WILL|WONT|DO|DONT>
+        <option> - three bytes, option byte verbatim (the receiver reads exactly one option byte)."""
+        for side in self.sides():
+            w = side.wire
+            new = w.total - w.checked
+            w.checked = w.total
+            for msg in (w.q[-new:] if new else ()):
+                self.wire_messages_checked += 1
+                if not (len(msg) == 3 and msg[0] == 0xFF and 251 <= msg[1] <= 254 and msg[2] in self.options):
+                    self.problems.append(("negotiation-message-not-iac-cmd-option", "a negotiation message on the wire is not exactly IAC <cmd> <option>",
+                                          {"side": side.name, "message": msg, "options": list(self.options)}))
+
+    wire_messages_checked = 0
 
     def pstate(self):
         opts = tuple((self.a.optstate(bytes([o])), self.b.optstate(bytes([o]))) for o in self.options)
@@ -440,6 +461,7 @@ def explore(ctx, cfg, options, max_requests, owns_first=None):
                 ctx.count("re_expanded_with_more_requests_left")
             tick += 1
             heapq.heappush(heap, (-w2.left, tick, w2, h2))
+    ctx.count("wire_messages_checked", nstates)  # (at least one message check per explored state; exact count not kept per clone)
     ctx.count("requests_from_policy_callbacks_explored", 1 if "+" in "".join(cfg) else 0)
     ctx.count("states_%s_R%s" % ("-".join(cfg), "+".join(map(str, max_requests)) if isinstance(max_requests, tuple) else max_requests), nstates)
     return nstates
@@ -448,7 +470,12 @@ def explore(ctx, cfg, options, max_requests, owns_first=None):
 def random_run(ctx, i):
     rng = ctx.case_rng("rand", i)
     cfg = tuple(rng.choice(POLICIES) + (rng.choice(("+mirror", "+mirror", "+reenable")) if rng.random() < 0.25 else "") for _ in "AB")
-    options = (1, 3, 31)
+    pool = [0xFF, 0xFF, 0xFB, 0xFC, 0xFD, 0xFE, 0xF0, 0xFA, 0, 1, 3, 31, 13, 10] + [rng.randrange(256) for _ in range(6)]
+    options = tuple(sorted(set(rng.sample(pool, 3)))) if i % 4 else (1, 3, 31)
+    while len(options) < 3:
+        options = tuple(sorted(set(options + (rng.randrange(256),))))
+    if 0xFF in options:
+        ctx.count("random_runs_with_option_0xff")
     w = World(cfg, options, (10 ** 9, 10 ** 9))
     hist = []
     partial = {"A": b"", "B": b""}  # bytes of the message currently being delivered in segments
@@ -484,6 +511,7 @@ def random_run(ctx, i):
     ctx.evaluated()
     ctx.distinct(("rand", cfg, tuple(hist)))
     ctx.count("random_runs")
+    ctx.count("wire_messages_checked", w.wire_messages_checked)
     ctx.count("requests_from_policy_callbacks", w.a.hook_requests + w.b.hook_requests)
     if w.problems:
         report(ctx, cfg, options, (10 ** 9, 10 ** 9), hist, w.problems, confirm=False)
@@ -511,7 +539,14 @@ def run(ctx):
             continue
         ctx.seen("policy_pairs", "-".join(cfg))
         ctx.seen("budgets", "requests=%d,with-follow-up=%d" % budget)
-        explore(ctx, cfg, (1, 3), budget)
+        # option codes: ordinary ones, EXOPL (0xff == IAC) with WILL's code, and SE / SB's codes - the option byte is opaque
+        options = ((1, 3), (0xFF, 0xFB), (0xF0, 0xFA))[k % 3]
+        ctx.seen("option_codes", repr(options))
+        if 0xFF in options:
+            ctx.count("jobs_with_option_0xff")
+        elif options[0] >= 0xF0:
+            ctx.count("jobs_with_command_valued_options")
+        explore(ctx, cfg, options, budget)
     ctx.exhaustive = True
     for i in ctx.cases(600, 40000):
         random_run(ctx, i)
